@@ -106,6 +106,10 @@ type Scanner struct {
 	// boundary the character of the bounding lines.
 	boundary byte
 
+	// afterSlash the last byte was the first slash of an annotation and what
+	// kind of annotation it begins is not known yet.
+	afterSlash bool
+
 	// allowAnnotation indicates is annotation is allowed or not.
 	allowAnnotation bool
 
@@ -259,6 +263,13 @@ func (s *Scanner) Next() (lexeme.LexEvent, bool) {
 			s.found(lexeme.MixedValueEnd)
 			return s.processingFoundLexeme(lexeme.TypesShortcutEnd), true
 		}
+		err := errors.NewDocumentError(s.file, errors.ErrUnexpectedEOF)
+		err.SetIndex(s.dataSize - 1)
+		panic(err)
+	}
+
+	if s.afterSlash {
+		// The text ends right behind the slash that would begin an annotation.
 		err := errors.NewDocumentError(s.file, errors.ErrUnexpectedEOF)
 		err.SetIndex(s.dataSize - 1)
 		panic(err)
